@@ -89,16 +89,19 @@ func checkText(c Case, rec *evid.Rec) error {
 		return fmt.Errorf("engine rejects valid FEN %q: %v", c.FEN, err)
 	}
 	out, _ := eng.UCI([]string{"position fen " + c.FEN + " moves " + c.Text, "fen"})
-	got := eng.LastLine(out)
+	got := eng.LastFEN(out)
 	if rec != nil {
 		rec.Eval(1)
 	}
 	if got == b.FEN() {
-		// unchanged: fine unless the string is a well-formed name of a generated move
+		// unchanged: fine unless the string is the well-formed name of a legal move. (A generated move that
+		// leaves the own king attacked may be played, as the pseudo-legality gate does, or refused, as a driver
+		// that also tests legality would: the property only says that nothing but a genuine move is played.)
 		if m, err := refchess.ParseMove(c.Text); err == nil {
-			for _, g := range eng.Generated(ms, b) {
-				if g == eng.Enc(m) {
-					return fmt.Errorf("`position fen %s moves %s` left the position unchanged although the generator emits %s", c.FEN, c.Text, c.Text)
+			rp := eng.ToRef(b)
+			for _, l := range rp.Legal() {
+				if l == m {
+					return fmt.Errorf("`position fen %s moves %s` left the position unchanged although %s is a legal move", c.FEN, c.Text, c.Text)
 				}
 			}
 		}
